@@ -47,6 +47,8 @@ def deserialize_hml(ser: Slice, m: int) -> typing.Tuple[int, bitarray]:
         l = m.bit_length()
         n = ser.load_uint(l) if l else 0  # n:(#<= 0) takes no bits
         s = bitarray(str(v) * n)
+    if n > m:  # hml_*: {n <= m}; a longer label would leave a negative key length and the descent would never reach a leaf
+        raise ValueError(f'hashmap label of {n} bits exceeds the remaining key length {m}')
     return n, s
 
 
